@@ -413,7 +413,11 @@ func (h *c07Hist) doPost(creator string, merkle []byte, size, maxp, expires int6
 	}
 	var res MsgResult
 	via := "transaction"
-	if h.contract {
+	canonical := false
+	if a, err := sdk.AccAddressFromBech32(creator); err == nil && a.String() == creator {
+		canonical = true // (a contract's own address has one spelling: the message plugin compares with it)
+	}
+	if h.contract && canonical {
 		res, via = h.contractPost(msg), "contract"
 	} else {
 		res = e.Run(msg)
